@@ -415,8 +415,38 @@ fn vocab_token(rng: &mut Rng, toks: &[String]) -> String {
         _ => ["x", "xs", "f", "main", "Nil", "Cons", "List", "A", "hd", "cleanup", "asm_main", "lab0", "x0", "a0", "i6", "i644", "_x", "X_", "é", "λ"][rng.below(20)].to_string(),
     }
 }
+/// lexical class of a token: replacements inside a class usually keep the text parsable and exercise the type checker
+fn token_class(t: &str) -> u8 {
+    let c = t.chars().next().unwrap_or(' ');
+    if KEYWORDS.contains(&t) && t != "main" { 0 } else if c.is_ascii_lowercase() { 1 } else if c.is_ascii_uppercase() { 2 } else if c.is_ascii_digit() { 3 }
+    else if ["+", "-", "*", "/", "%"].contains(&t) { 4 } else if ["==", "!=", "<", "<=", ">", ">="].contains(&t) { 5 } else { 6 }
+}
+fn same_class_token(rng: &mut Rng, ts: &[String], i: usize) -> Option<String> {
+    let cl = token_class(&ts[i]);
+    let pool: Vec<&str> = match cl {
+        1 | 2 => { let mut v: Vec<&str> = ts.iter().filter(|t| token_class(t) == cl && **t != ts[i]).map(|t| t.as_str()).collect(); v.sort(); v.dedup(); if cl == 1 { v.push("zz9"); v.push("main"); } else { v.push("Zz9"); } v }
+        3 => LITS.iter().copied().chain(["2", "63", "64", "4611686018427387904", "9223372036854775806"]).collect(),
+        4 => vec!["+", "-", "*", "/", "%"],
+        5 => vec!["==", "!=", "<", "<=", ">", ">="],
+        0 => match ts[i].as_str() { "print_i64" => vec!["println_i64"], "println_i64" => vec!["print_i64"], "data" => vec!["codata"], "codata" => vec!["data"], "label" => vec!["goto"], "goto" => vec!["label", "exit"], "i64" => { let mut v: Vec<&str> = ts.iter().filter(|t| token_class(t) == 2).map(|t| t.as_str()).collect(); v.sort(); v.dedup(); v }, "case" => vec!["hd", "new"], _ => vec![] },
+        _ => vec![],
+    };
+    if pool.is_empty() { None } else { Some(pool[rng.below(pool.len())].to_string()) }
+}
 fn token_mutant(rng: &mut Rng, text: &str) -> (String, String) {
     let mut ts = tokenize(text);
+    if !ts.is_empty() && rng.chance(1, 2) {
+        // class-preserving edits
+        let edits = 1 + rng.below(2);
+        let mut desc = Vec::new();
+        for _ in 0..edits {
+            for _try in 0..20 {
+                let i = rng.below(ts.len());
+                if let Some(t) = same_class_token(rng, &ts, i) { desc.push(format!("same-class@{i}:{}", slug(&t))); ts[i] = t; break; }
+            }
+        }
+        return (desc.join("+"), untokenize(&ts));
+    }
     let edits = 1 + rng.below(3);
     let mut desc = Vec::new();
     for _ in 0..edits {
@@ -433,7 +463,8 @@ fn token_mutant(rng: &mut Rng, text: &str) -> (String, String) {
     }
     (desc.join("+"), untokenize(&ts))
 }
-const BYTE_SEQS: [&[u8]; 16] = [b"\x00", b"\xff", b"\x80", b"\xc0", b"\xe2\x80", b"\xf0\x9f", b"\xc2\xa0", b"\xe2\x80\xa8", b"\xef\xbb\xbf", b"\r", b"\x0b", b"\x0c", b"\xf0\x9f\x98\x80", b"\xed\xa0\x80", b"\x1b[0m", b"\x7f"];
+const BYTE_SEQS: [&[u8]; 24] = [b"\x00", b"\xff", b"\x80", b"\xc0", b"\xe2\x80", b"\xf0\x9f", b"\xc2\xa0", b"\xe2\x80\xa8", b"\xef\xbb\xbf", b"\r", b"\x0b", b"\x0c", b"\xf0\x9f\x98\x80", b"\xed\xa0\x80", b"\x1b[0m", b"\x7f",
+    b"\xc2\x85", b"\xe3\x80\x80", b"\xe2\x80\x8b", b"\xcc\x81", b"0", b"//", b" | ", b"\n"];
 fn byte_mutant(rng: &mut Rng, text: &[u8]) -> (String, Vec<u8>) {
     let mut b = text.to_vec();
     let edits = 1 + rng.below(3);
